@@ -144,9 +144,21 @@ def build(sm: SourceModel, f: Func) -> SchemeModel:
     if counter:
         atoms[counter] = "CTR"
     funcs = {"sympytools.Conditional": _conditional_handler, "Conditional": _conditional_handler}
+    # module-level constants (a named suffix, a tolerance) are their values
+    mod_consts = {}
+    mod = sm.modules.get(f.rel)
+    if mod is not None:
+        for st in mod.body:
+            if isinstance(st, ast.Assign) and len(st.targets) == 1 and isinstance(st.targets[0], ast.Name) and isinstance(st.value, ast.Constant) and isinstance(st.value.value, (str, int, float)) and not isinstance(st.value.value, bool):
+                mod_consts[st.targets[0].id] = st.value
+            elif isinstance(st, ast.AnnAssign) and isinstance(st.target, ast.Name) and isinstance(st.value, ast.Constant) and isinstance(st.value.value, (str, int, float)):
+                mod_consts[st.target.id] = st.value
     rows = []
     for p in te.enumerate_paths(loop.body):
         ev = te.TermEval(env={}, atoms=atoms, funcs=funcs)
+        for k_, v_ in mod_consts.items():
+            if k_ not in f.params:
+                ev.env[k_] = ev.ev(v_)
         emissions = []
         stores = []
         incs_positions = []
